@@ -328,6 +328,53 @@ def check_C08(report, tier, seed, replay=None):
             report.violation("bytes on the wire are not exactly the intended command: %r sent %r (strict parse: %s, expected %s)"
                              % (op, sent, parsed, expect),
                              {"property": "C08", "op": [repr(x) for x in op], "sent": hx(sent)})
+    # a write that fails (timeout, reset, interrupted) must not leak into the next call: the command that follows on the
+    # same connection, and the AUTHENTICATE of a new connect(), are still exactly one command each
+    import socket as _socket
+    faults = [_socket.timeout("timed out"), ConnectionResetError("reset"), BrokenPipeError("pipe"), InterruptedError("eintr")]
+    first_ops = [("deletescript", b"precious"), ("putscript", b"n", b"keep;\r\n"), ("setactive", b"x\ny"), ("havespace", b"n", 5),
+                 ("listscripts",), ("getscript", b'a"b')]
+    for i in range(48 if tier == "quick" else 480):
+        op1 = first_ops[i % len(first_ops)]
+        v = gen_value(rng).encode()
+        op2, want2 = (("getscript", v), ("GETSCRIPT", ["s:" + hx(v)])) if i % 2 else (("deletescript", v), ("DELETESCRIPT", ["s:" + hx(v)]))
+        sess = I.canned_session([b"OK\r\n", b"OK\r\n"], version=False)
+        sess.net.send_fault = faults[i % len(faults)]
+        out1, _ = sess.call(op1)
+        sess.net.log = []
+        reconnect = (i % 3 == 0)
+        if reconnect:
+            sess.net.queue = []
+            pre = I.GREETING + b"OK\r\n" + b"OK\r\n"
+            orig = sess.net.connect
+
+            def connect(orig=orig, net=sess.net, pre=pre):
+                sock = orig()
+                net.queue = [pre]
+                return sock
+            sess.net.connect = connect
+            out2, _ = sess.call(("connect", b"u", b"p", b"", False, None))
+            sess.net.connect = orig
+        else:
+            sess.net.queue = [b"OK\r\n"]
+            out2, _ = sess.call(op2)
+        sent = b"".join(e[3] for e in sess.net.log if e[0] == "S")
+        sess.close()
+        report.case(("write-fault", op1, i), True, {"op": repr(op1), "then": "connect" if reconnect else repr(op2), "sent": repr(sent)[:160]})
+        report.count("op:after-write-fault")
+        if not sent:
+            continue                 # the client refused to go on: nothing smuggled
+        parsed = drv.ask("parse_cmd " + hx(sent))
+        if reconnect:
+            good = parsed.startswith("cmd " + hx(b"AUTHENTICATE") + " ") and parsed.endswith("rest=x")
+            expect = "one AUTHENTICATE command"
+        else:
+            expect = "cmd %s %s rest=x" % (hx(want2[0].encode()), ",".join(want2[1]))
+            good = parsed == expect
+        if not good:
+            report.violation("after a failed write of %r the next call (%s) put %r on the wire (strict parse: %s, expected %s)"
+                             % (op1, "connect" if reconnect else repr(op2), sent, parsed, expect),
+                             {"property": "C08", "op": [repr(x) for x in op1], "sent": hx(sent), "history": "write fault, then next call"})
     drv.close()
 
 
@@ -397,17 +444,33 @@ def check_C09(report, tier, seed, replay=None):
             report.violation("result does not mirror the status reply: %s on %r gives %r" % (op[0], rb, got[0]),
                              {"property": "C09", "op": [repr(x) for x in op], "stream": hx(stream), "version": version})
     # NO / BYE at each step of the emulated rename
-    for i in range(40 if tier == "quick" else 600):
+    for i in range(90 if tier == "quick" else 900):
         step = rng.randrange(0, 5)
         status = rng.choice([b"NO", b"BYE"])
         active = rng.choice([b"old", None])
+        # the script being renamed: ordinary, empty (as a literal and as a quoted string), blank
+        body_reply = [b"{5}\r\nkeep;\r\n", b"{0}\r\n\r\n", b'""\r\n', b"{2}\r\n\r\n\r\n", b'"keep;"\r\n'][i % 5]
         replies = [b'"old"' + (b" ACTIVE" if active == b"old" else b"") + b'\r\n"other"\r\n' + G.gen_status(rng, b"OK")[0],
-                   b"{5}\r\nkeep;\r\n" + G.gen_status(rng, b"OK")[0],
+                   body_reply + G.gen_status(rng, b"OK")[0],
                    G.gen_status(rng, b"OK")[0]]
         if active == b"old":
             replies.append(G.gen_status(rng, b"OK")[0])
         replies.append(G.gen_status(rng, b"OK")[0])
         step = step % len(replies)
+        if i % 3 == 2:
+            # every step answered OK: the operation succeeds, whatever the script holds
+            stream = b"".join(replies) + SENT_REPLIES
+            ops = [("renamescript", b"old", b"new"), SENT1, SENT2, SENT3]
+            got = run_impl_canned(ops, [stream], False)
+            mod = run_model_canned(drv, ops, [stream], False)
+            report.case(("rename-all-ok", body_reply, active, stream), True)
+            report.count("rename-step:all-ok")
+            if mod != got:
+                report.broke("correspondence C09 (emulated rename, all steps OK)", "model=%r impl=%r" % (mod[0], got[0]), {"stream": hx(stream)})
+            if not (got[0][0].startswith("D:true") and got[0][1].startswith("D:false") and got[0][3].startswith("D:b:x ")):
+                report.violation("emulated rename with every step answered OK (script reply %r) gives %r" % (body_reply, got[0]),
+                                 {"property": "C09", "stream": hx(stream), "op": "renamescript old new (no VERSION)"})
+            continue
         fb, fab = G.gen_status(rng, status)
         stream = b"".join(replies[:step]) + fb
         ops = [("renamescript", b"old", b"new")]
@@ -478,7 +541,9 @@ def check_C14(report, tier, seed, replay=None):
                    "present, active} x other scripts x fault {none, NO, BYE, silence} at each of the five commands x bodies "
                    "(LF/CRLF/CR, no final newline, protocol look-alikes), enumerated exhaustively; reference server = extracted "
                    "Coq server; non-trivial = old exists")
-    bodies = [b"keep;\r\n", b"a\nb", b"OK\r\n{5}\r\nNO \"x\"\r\n", b"", b'if true { discard; }\r\n\r\n', b"x\ry"]
+    bodies = [b"keep;\r\n", b"a\nb", b"OK\r\n{5}\r\nNO \"x\"\r\n", b"", b'if true { discard; }\r\n\r\n', b"x\ry",
+              # characters str.splitlines() treats as line boundaries but a Sieve script may contain
+              "# a\x0bb\x0cc\r\nkeep;".encode(), "# \u2028x\u2029y\u0085z\r\n".encode("utf-8"), b"# \x1c\x1d\x1e\nstop;\n"]
     if tier != "quick":
         bodies += [G.gen_body(rng) for _ in range(6)]
     olds = ["absent", "present", "active"]
@@ -665,6 +730,14 @@ def check_C15(report, tier, seed, replay=None):
                     problem = "client reports success but the script is not on the server"
                 if head == "D:true" and op[0] == "deletescript" and op[1] in dict(after["store"]):
                     problem = "client reports success but the script is still on the server"
+            if op[0] == "renamescript" and head in ("D:true", "D:false"):
+                # the statement of C14 (nothing lost, nothing overwritten, success means renamed) holds inside sessions too,
+                # for the native command and for the emulation
+                complaints = rename_oracle(before, after, op[1], op[2], head)
+                if head == "D:true" and (op[1] not in dict(before["store"]) or op[2] in dict(before["store"])):
+                    complaints.append("reported success although the server must refuse (old missing or new exists)")
+                if complaints:
+                    problem = "rename: " + "; ".join(complaints)
             if head.startswith("F:") and head != "F:NotImplementedError":
                 problem = "operation raised %s against a conforming server" % head
             if problem:
@@ -819,8 +892,65 @@ def check_C16(report, tier, seed, replay=None):
                     problem = "connect returned %s but server verdict was %s" % (head, srv["authed"])
                 elif head not in ("D:true", "D:false"):
                     problem = "connect gave %s" % head
+        if problem is None and head != "D:true" and " auth=1 " in ri + " ":
+            problem = "connect gave %s but the client reports itself authenticated" % head
         if problem:
             report.violation("SASL: %s (announced %r, preferred %r)" % (problem, announced, authmech), desc)
+    # the same client object used again after a successful session: a connect for which no mechanism qualifies (or which
+    # the server refuses) sends what the rule says and does not keep the earlier verdict
+    for i in range(60 if tier == "quick" else 1200):
+        announced = rng.sample(pool, rng.randrange(0, 4))
+        authmech = rng.choice([None, b"PLAIN", b"LOGIN", b"X-FOO"])
+        verdict = rng.choice([b"OK", b"NO"])
+        sess = I.canned_session([], authenticated=True)
+        net = sess.net
+        greeting = b'"IMPLEMENTATION" "x"\r\n' + (b'"SASL" "%s"\r\n' % b" ".join(announced) if (announced or i % 7) else b"") + b"OK\r\n"
+        orig_c = net.connect
+
+        def connect(orig_c=orig_c, net=net, greeting=greeting):
+            sk = orig_c()
+            net.queue = [greeting]
+            return sk
+        net.connect = connect
+        orig_send = net.send
+
+        def send(data, orig_send=orig_send, net=net, verdict=verdict):
+            orig_send(data)
+            w = first_word(data)
+            if w == b"AUTHENTICATE" and b'"LOGIN"' in data:
+                net.queue.append(b'""\r\n')          # LOGIN: the server asks for the next part
+            elif w == b"AUTHENTICATE":
+                net.queue.append(verdict + b"\r\n")
+            elif not data.startswith(b"LOGOUT"):
+                net.queue.append(b'""\r\n' if net.login_step == 0 else verdict + b"\r\n")
+                net.login_step += 1
+        net.login_step = 0
+        net.send = send
+        net.log = []
+        ri, detail = sess.call(("connect", b"user", b"secret", b"", False, authmech))
+        log = list(net.log)
+        sess.close()
+        want = expected_mech(announced, authmech)
+        head = ri.split(" ")[0]
+        report.case(("reuse", tuple(announced), authmech, verdict, i), True,
+                    {"history": "successful session, then connect", "announced": [a.decode() for a in announced], "result": head})
+        report.count("reuse:%s" % (want.decode() if want else "none"))
+        if want == b"DIGEST-MD5":
+            continue
+        nauth = sum(1 for e in log if e[0] == "S" and first_word(e[3]) == b"AUTHENTICATE")
+        problem = None
+        if want is None and nauth:
+            problem = "no mechanism qualifies but AUTHENTICATE was sent"
+        elif want is None and head == "D:true":
+            problem = "no mechanism qualifies but connect returned True"
+        elif want is not None and (head == "D:true") != (verdict == b"OK"):
+            problem = "connect gave %s but the server said %s" % (head, verdict.decode())
+        elif head != "D:true" and " auth=1 " in ri + " ":
+            problem = "connect gave %s but the client still reports itself authenticated (verdict of the earlier session kept)" % head
+        if problem:
+            report.violation("SASL on a reused client: %s (announced %r, preferred %r)" % (problem, announced, authmech),
+                             {"property": "C16", "history": "successful session, then connect", "announced": [a.decode() for a in announced],
+                              "authmech": authmech and authmech.decode(), "verdict": verdict.decode()})
     drv.close()
 
 
@@ -1000,5 +1130,46 @@ def check_C10(report, tier, seed, replay=None):
                 if not e[2] or b'"LOGIN"' not in e[3]:
                     report.violation("plaintext received before the TLS handshake decided the SASL mechanism: %r" % e[3],
                                      {"property": "C10", "history": "plaintext injection after STARTTLS", "chunks": [hx(c) for c in chunks]})
+            sess.close()
+        # 7. the capability listing expected after the handshake is missing / cut short / refused: nothing announced after
+        #    the handshake, so no mechanism may be taken from the clear-text listing
+        for why, post in (("silence", []), ("BYE", [b'BYE "go away"\r\n']), ("NO", [b'NO\r\n']),
+                          ("listing without final OK", [b'"IMPLEMENTATION" "x"\r\n"SASL" "LOGIN"\r\n']),
+                          ("listing cut mid-line", [b'"IMPLEMENTATION" "x"\r\n"SASL" "LOG']),
+                          ("empty listing", [b'OK\r\n']), ("listing without SASL", [b'"IMPLEMENTATION" "x"\r\nOK\r\n'])):
+            net = I.Net()
+            sess = I.Session(net)
+            orig_c, orig_w = net.connect, net.wrap
+
+            def connect(orig_c=orig_c, net=net):
+                s = orig_c()
+                net.queue = [b'"IMPLEMENTATION" "x"\r\n"SASL" "PLAIN"\r\n"STARTTLS"\r\nOK\r\n']
+                return s
+
+            def wrap(sock, orig_w=orig_w, net=net, post=post):
+                s = orig_w(sock)
+                net.queue = list(post)
+                return s
+            net.connect, net.wrap = connect, wrap
+            orig_send = net.send
+
+            def send(data, orig_send=orig_send, net=net):
+                orig_send(data)
+                if first_word(data) == b"STARTTLS":
+                    net.queue.append(b"OK\r\n")
+                elif first_word(data) == b"AUTHENTICATE":
+                    net.queue.append(b"OK\r\n")
+            net.send = send
+            ri, _ = sess.call(("connect", b"user", b"secret", b"", True, None))
+            report.case(("tls-post-capability", why), True, {"history": "STARTTLS ok, then capability listing: " + why, "result": ri.split(" ")[0]})
+            report.count("tls:post-capability-fault")
+            announced_after = b"LOGIN" if why == "listing without final OK" else None
+            for e in net.log:
+                if e[0] == "S" and first_word(e[3]) == b"AUTHENTICATE":
+                    if announced_after is None or (b'"%s"' % announced_after) not in e[3]:
+                        report.violation("STARTTLS ok, post-handshake capabilities: %s -- yet %r was written (mechanism taken from the "
+                                         "clear-text listing)" % (why, e[3]),
+                                         {"property": "C10", "history": "STARTTLS ok; post-TLS capability listing: " + why})
+                        break
             sess.close()
     drv.close()
